@@ -371,16 +371,22 @@ func c15History(c *vrep.Ctx) {
 	type op struct {
 		files []string
 		ver   []int
+		limit int // >= 0: the archive goes to a writer that fails after this many bytes; the outcome is ignored
 	}
 	var ops []op
+	// failed builds: real license files (large enough for the compressed stream to reach the writer
+	// while entries are still being produced) into a writer that gives up early
+	for _, lim := range []int{0, 512, 2048, 8192, 20000} {
+		ops = append(ops, op{[]string{"GPL-2.0.txt", "MIT.txt"}, nil, lim})
+	}
 	for va := 0; va < 2; va++ {
-		ops = append(ops, op{[]string{"syn-a.txt"}, []int{va}})
-		ops = append(ops, op{[]string{"syn-b.txt"}, []int{va}})
+		ops = append(ops, op{[]string{"syn-a.txt"}, []int{va}, -1})
+		ops = append(ops, op{[]string{"syn-b.txt"}, []int{va}, -1})
 		for vb := 0; vb < 2; vb++ {
-			ops = append(ops, op{[]string{"syn-a.txt", "syn-b.txt"}, []int{va, vb}})
+			ops = append(ops, op{[]string{"syn-a.txt", "syn-b.txt"}, []int{va, vb}, -1})
 		}
 	}
-	c.R.Rule = fmt.Sprintf("load histories: ALL sequences of 1..%d archive builds+loads in one process over 2 synthetic file names x 2 content versions each (%d operations: {a}, {b}, {a,b} x versions); after EVERY load the archive-loaded classifier must answer exact, lightly edited and embedded queries for the CURRENT contents like a classifier built directly from them; non-trivial = distinct (history, query) comparisons", depth, len(ops))
+	c.R.Rule = fmt.Sprintf("load histories: ALL sequences of 1..%d archive builds+loads in one process over 2 synthetic file names x 2 content versions each, and builds of two real licenses into a writer that fails after 0/512/2048/8192/20000 bytes (%d operations: {a}, {b}, {a,b} x versions, 5 failed builds); after EVERY load the archive-loaded classifier must answer exact, lightly edited and embedded queries for the CURRENT contents like a classifier built directly from them; non-trivial = distinct (history, query) comparisons", depth, len(ops))
 	c.Bound("depth", depth)
 	c.Bound("operations", len(ops))
 	body := func(r *vx.Run) {
@@ -397,6 +403,21 @@ func c15History(c *vrep.Ctx) {
 		var desc []string
 		for step, oi := range hist {
 			o := ops[oi]
+			if o.limit >= 0 {
+				desc = append(desc, fmt.Sprintf("%v->writer failing after %d bytes", o.files, o.limit))
+				func() {
+					defer func() {
+						if x := recover(); x != nil {
+							msg = fmt.Sprint("panic in a build whose writer fails: ", x)
+						}
+					}()
+					serializer.ArchiveLicenses(o.files, &limitWriter{left: o.limit})
+				}()
+				if msg != "" {
+					break
+				}
+				continue
+			}
 			cur := map[string]string{}
 			for i, f := range o.files {
 				synthetic[f] = texts[f][o.ver[i]]
@@ -466,6 +487,19 @@ func c15History(c *vrep.Ctx) {
 		}
 	})
 	c.R.States = c.R.Evaluations
+}
+
+// limitWriter accepts a number of bytes and fails from then on.
+type limitWriter struct{ left int }
+
+func (w *limitWriter) Write(p []byte) (int, error) {
+	if len(p) > w.left {
+		n := w.left
+		w.left = 0
+		return n, fmt.Errorf("injected: device full")
+	}
+	w.left -= len(p)
+	return len(p), nil
 }
 
 // tie: both names achieve the same confidence on their own (ties are undefined by the doc comment).
